@@ -2,7 +2,7 @@
 import ast
 
 from sa.loader import AnalysisError, norm, walk_local
-from .common import analysis, names_in, str_consts_compared
+from .common import analysis, names_in, str_consts_compared, isinstance_types
 from . import c17
 
 PROP = "C15"
@@ -91,7 +91,7 @@ def run(ctx):
     for c in subs:
         for cls_ in (encJ, decJ):
             da = cls_.methods["do_action"]
-            handled = any(isinstance(n, ast.Call) and isinstance(n.func, ast.Name) and n.func.id == "isinstance" and norm(n.args[1]) == c.name for n in walk_local(da.node))
+            handled = c.name in isinstance_types(da.node)
             popped = c.name == "EnumLabels" and any("pop_symbol" in norm(n) for m in cls_.methods.values() for n in walk_local(m.node) if isinstance(n, ast.Call))
             ctx.check("C15.R3", f"{cls_.name}.do_action handles {c.name}", handled or popped, da.where(), f"{cls_.name}.do_action lacks {c.name}", f"an action of kind {c.name} reaching do_action raises 'cannot handle'")
 
